@@ -323,7 +323,12 @@ def _gen_powuai(rng, D, P, tier):
     flat = x[0].reshape(P, -1)
     flat[:, 0] = 0.0                                   # a zero base point in every direction
     r = np.array([rng.choice([0, 1, 2, 2, 3, 4]) for _ in range(int(np.prod(rs)))]).reshape(rs)
-    return [U(x), A(r), Kp(rng.choice(['int64', 'int32', 'uint8']))]
+    dt = rng.choice(['int64', 'int32', 'uint8'])
+    if dt != 'uint8' and rs == s and r.size >= 2 and rng.random() < 0.5:
+        # mixed signs: negative exponents where the base point is not zero (entry 0 of every direction is the zero base)
+        r.reshape(-1)[-1] = rng.choice([-1, -2])
+        flat[:, -1] = rng.choice([1.5, -0.75, 2.0])
+    return [U(x), A(r), Kp(dt)]
 
 
 op('pow:uai', _gen_powuai, lambda a: a[0] ** a[1].astype(a[2]), lambda z: z[0] ** z[1], tags=('arith',))
@@ -338,12 +343,18 @@ def _gen_param_array(rng, D, P, tier):
     x = rand_coeffs(rng, (D, P) + s, -1, 1)
     x[0] = rand_coeffs(rng, (P,) + s, 0.75, 3.0)
     n = int(np.prod(rs))
-    return [U(x), A(np.array([rng.choice([0, 1, 2]) for _ in range(n)]).reshape(rs)), A(np.array([rng.choice([0.5, 1.0, 1.5]) for _ in range(n)]).reshape(rs))]
+    return [U(x), A(np.array([rng.choice([0, 1, 2]) for _ in range(n)]).reshape(rs)), A(np.array([rng.choice([0.5, 1.0, 1.5]) for _ in range(n)]).reshape(rs)),
+            Kp(rng.choice(['array', 'list']))]
 
 
-op('polygamma:arr', _gen_param_array, lambda a: algopy.special.polygamma(a[1].astype(int), a[0]), lambda z: sp.polygamma(int(z[1]), z[0]), tags=('ew',))
-op('hyperu:arr', _gen_param_array, lambda a: algopy.special.hyperu(a[2], 1.5, a[0]), lambda z: sp.hyperu(z[2], 1.5, z[0]), tags=('ew',))
-op('clip:arr', _gen_param_array, lambda a: UTPM.botched_clip(a[2] - 0.25, a[2] + 1.0, a[0]), None, tags=('ew',))
+def _pf(a, form):
+    """the parameter as an ndarray or as a (nested) Python list"""
+    return a.tolist() if form == 'list' else a
+
+
+op('polygamma:arr', _gen_param_array, lambda a: algopy.special.polygamma(_pf(a[1].astype(int), a[3]), a[0]), lambda z: sp.polygamma(int(z[1]), z[0]), tags=('ew',))
+op('hyperu:arr', _gen_param_array, lambda a: algopy.special.hyperu(_pf(a[2], a[3]), 1.5, a[0]), lambda z: sp.hyperu(z[2], 1.5, z[0]), tags=('ew',))
+op('clip:arr', _gen_param_array, lambda a: UTPM.botched_clip(_pf(a[2] - 0.25, a[3]), _pf(a[2] + 1.0, a[3]), a[0]), None, tags=('ew',))
 
 
 op('rpow:su', _gen_rpow, lambda a: a[0] ** a[1], lambda z: z[0] ** z[1], tags=('arith',))
@@ -513,7 +524,8 @@ op('det', lambda rng, D, P, t: [U(gen_square(rng, D, P, rng.randint(1, 3)))], la
 
 
 def _gen_logdet(rng, D, P, tier):
-    return [U(gen_square(rng, D, P, rng.randint(1, 3), 'spd'))]
+    # positive definite, or a general well-conditioned matrix (determinant of either sign; logdet = log|det| as numpy.linalg.slogdet)
+    return [U(gen_square(rng, D, P, rng.randint(1, 3), rng.choice(['spd', 'general', 'general'])))]
 
 
 def _gen_expm(rng, D, P, tier, amps=(1e-3, 0.05, 0.3, 0.5)):
